@@ -195,8 +195,11 @@ func main() {
 		for _, a := range []string{authFull, authRevOnly, authNone} {
 			r.Require("auth/"+a, 10)
 		}
-		for _, f := range []string{FTombCorrupt, FTombDir, FBothEIO} {
+		for _, f := range []string{FTombCorrupt, FTombDir, FTombEmpty, FTombTorn, FBothEIO} {
 			r.Require("fail_closed_observed/"+f, 2)
+		}
+		for _, f := range dirFaults {
+			r.Require("store_unreadable_revoked_key_configured/"+f, 4)
 		}
 		r.Require("s3_checks", 50)
 		r.Require("s1_s2_checks", 500)
@@ -251,6 +254,10 @@ func buildSpecs(r *vlib.Run) []*RunSpec {
 				add(RunSpec{Kind: "sweep", Collision: d.Collision, H: withFaults(d.H, map[int]string{p: f})})
 			}
 		}
+	}
+	// store loss after a recorded revocation (not swept: the faults are the point)
+	for _, d := range directedStoreLoss(t) {
+		add(d)
 	}
 	// random histories
 	nRandom := r.N(140, 110)
